@@ -785,7 +785,9 @@ func (e *Engine) registerIntrinsics() {
 		default:
 			panic(unsupported("bufio.Writer.Write of %T", a[1]))
 		}
-		b.buf = concatStr(b.buf, s)
+		if e, ok := r.bufAdd(fr, b, s); !ok {
+			return Tuple{IntV{}, e}
+		}
 		return Tuple{r.strLen(s), Iface{}}
 	}
 	// fmt.Fprintln = Sprintln + one Write
@@ -795,7 +797,9 @@ func (e *Engine) registerIntrinsics() {
 		if p, ok := w.V.(Ptr); ok && p != nil {
 			if b, ok := (*p).(*bufWriterObj); ok {
 				r.raceAccess(writerKey{p}, true, fr, nil)
-				b.buf = concatStr(b.buf, s)
+				if e, ok := r.bufAdd(fr, b, s); !ok {
+					return Tuple{IntV{}, e}
+				}
 				return Tuple{r.strLen(s), Iface{}}
 			}
 		}
@@ -812,7 +816,9 @@ func (e *Engine) registerIntrinsics() {
 	in["(*bufio.Writer).WriteString"] = func(r *Run, fr *frame, a []Value) Value {
 		r.raceAccess(writerKey{a[0].(Ptr)}, true, fr, nil)
 		b := (*a[0].(Ptr)).(*bufWriterObj)
-		b.buf = concatStr(b.buf, a[1].(StrV))
+		if e, ok := r.bufAdd(fr, b, a[1].(StrV)); !ok {
+			return Tuple{IntV{}, e}
+		}
 		return Tuple{r.strLen(a[1].(StrV)), Iface{}}
 	}
 	in["(*bufio.Writer).Flush"] = func(r *Run, fr *frame, a []Value) Value {
@@ -1231,6 +1237,50 @@ func (r *Run) callBody(caller *frame, pkg, fn string, args []Value) Value {
 type bufWriterObj struct {
 	w   Iface
 	buf StrV
+}
+
+// bufAdd: bufio.Writer's hand-over rule. With concrete contents (the sizes are known) the real rule is followed: the
+// 4096-byte buffer is filled and flushed whenever the data does not fit, and data arriving at an empty buffer that is
+// larger than the buffer goes to the underlying writer directly. With opaque contents the buffer is unbounded (one
+// Write at Flush): blocks of that size with opaque names are outside the model.
+func (r *Run) bufAdd(fr *frame, b *bufWriterObj, s StrV) (Value, bool) {
+	const size = 4096
+	if !b.buf.isConcrete() || !s.isConcrete() || len(b.buf.concrete())+len(s.concrete()) <= size {
+		b.buf = concatStr(b.buf, s)
+		return nil, true
+	}
+	cur, p := b.buf.concrete(), s.concrete()
+	write := func(data string) Value {
+		m := r.eng.prog.LookupMethod(b.w.T, nil, "Write")
+		res := r.callFunc(fr, m, []Value{b.w.V, BytesOf{S: strLit(data)}}, nil).(Tuple)
+		if r.cs != nil && strings.Contains(r.eng.sched, "wyield") {
+			r.yield()
+		}
+		if e, ok := res[1].(Iface); ok && e.T != nil {
+			return e
+		}
+		return nil
+	}
+	for len(p) > size-len(cur) {
+		if len(cur) == 0 {
+			if e := write(p); e != nil {
+				b.buf = StrV{}
+				return e, false
+			}
+			p = ""
+			break
+		}
+		n := size - len(cur)
+		cur += p[:n]
+		p = p[n:]
+		if e := write(cur); e != nil {
+			b.buf = StrV{}
+			return e, false
+		}
+		cur = ""
+	}
+	b.buf = strLit(cur + p)
+	return nil, true
 }
 
 // bytes.Buffer as a stub: the content is a string value (literal, symbolic bytes, opaque atoms), so writes of
